@@ -455,3 +455,7 @@ def run(chk, repo):
     # ---- e (shared with C06.a): a skipped / invalid transcript must not leave the pending batch undispatched
     from rules.C06 import rule_drain
     rule_drain(chk, repo, 'C07.e')
+    # ------------------------------------------------------------------ shared: context managers restore in finally
+    from rules.shared import ctxmgr
+    chk.clauses.append('C07.f every generator context manager of the package restores its state in a finally (a failure inside the managed block, later swallowed by --skip-failed, cannot leak a swapped state into other units)')
+    ctxmgr(chk, repo, 'C07.f', ['seqvar', 'svgraph', 'cli.call_variant_peptide', 'cli.common', 'cli.parse_vep', 'cli.parse_star_fusion', 'cli.parse_arriba', 'cli.parse_fusion_catcher', 'gtf', 'dna', 'aa'], floor=0)
